@@ -12,6 +12,10 @@ PROPERTY ScaleRecomputed
 PROPERTY ZeroScaleRaises
 PROPERTY GetScalePure
 PROPERTY NeventsSet
+PROPERTY AllowZeroSkips
+PROPERTY NeventsZeroRaises
+PROPERTY ToGraphScalePure
+PROPERTY HeldFrozen
 PROPERTY AddCellwise
 PROPERTY AddOnlyEqualEdges
 PROPERTY AddPure
